@@ -253,8 +253,17 @@ pub mod rust_log_ref_finder
                                             Some(CodePosition::new(span.start(), line, column));
 
                                         ref_kind = LogRefKind::StructuredPreExisting;
-                                        // The value's span includes any blanks up to the delimiter
-                                        reference = match span.as_str().trim().parse::<u32>()
+                                        // The value's span includes any blanks and comments up to the
+                                        // delimiter: the value itself ends where a comment begins
+                                        let value = span.as_str();
+                                        let value_end = match (value.find("/*"), value.find("//"))
+                                        {
+                                            (Some(block), Some(inline)) => block.min(inline),
+                                            (Some(comment), None) | (None, Some(comment)) => comment,
+                                            (None, None) => value.len(),
+                                        };
+
+                                        reference = match value[..value_end].trim().parse::<u32>()
                                         {
                                             Err(_) => None,
                                             Ok(val) => Some(val),
